@@ -76,9 +76,13 @@ type fnet struct {
 	nextConn  int
 }
 
-func (n *fnet) LocalPeer() peer.ID                         { return n.local }
-func (n *fnet) ResourceManager() network.ResourceManager   { return n.rm }
-func (n *fnet) Notify(f network.Notifiee)                  { n.mu.Lock(); n.notifiees = append(n.notifiees, f); n.mu.Unlock() }
+func (n *fnet) LocalPeer() peer.ID                       { return n.local }
+func (n *fnet) ResourceManager() network.ResourceManager { return n.rm }
+func (n *fnet) Notify(f network.Notifiee) {
+	n.mu.Lock()
+	n.notifiees = append(n.notifiees, f)
+	n.mu.Unlock()
+}
 func (n *fnet) StopNotify(f network.Notifiee) {
 	n.mu.Lock()
 	for i, x := range n.notifiees {
